@@ -19,8 +19,10 @@ topped up to `count`.
 `deploy` has exactly four kinds of answer for a known strategy and a positive count: a plan, one of the
 two refusals (`errInsufficient`, `errInsufficientCapacity`), or FILL's `errAlreadyFilled`.
 `plan_implies_feasible` + `already_filled_is_feasible` + `refusal_implies_infeasible` + `error_kinds` +
-`no_crash` therefore give both directions of the property: feasible ⇒ plan (or "already filled"),
+`no_crash` (which holds for every node limit, negative ones included) therefore give both directions of
+the property: feasible ⇒ plan (or "already filled") — stated outright as `feasible_implies_plan` —,
 infeasible ⇒ refusal, and a refusal carries no plan by the shape of `Outcome`.
+`each_negative_limit_means_all` documents the repaired EACH: a non-positive limit means all nodes.
 -/
 namespace Eru.Props.C02
 open Eru Eru.Strategy
@@ -96,8 +98,9 @@ theorem error_kinds (sname : String) (s : Strat) (count limit total : Int) (info
     · rename_i hf
       exact Or.inl ((fill_cases infos count limit).2.1 _ hf).1
 
-/-- nothing crashes or diverges for a non-negative node limit -/
-theorem no_crash (sname : String) (count limit total : Int) (infos : List Info) (hv : Valid infos) (hl : 0 ≤ limit) :
+/-- nothing crashes or diverges, for any strategy name, count and node limit (negative limits included:
+EACH reads a non-positive limit as "all nodes" since the fix, FILL answers `errInsufficient`) -/
+theorem no_crash (sname : String) (count limit total : Int) (infos : List Info) (hv : Valid infos) :
     (∀ m, deploy sname count limit infos total ≠ .panic m) ∧ deploy sname count limit infos total ≠ .diverge := by
   cases hs : Strat.ofString? sname with
   | none => simp only [deploy, hs]; exact ⟨fun _ => nofun, nofun⟩
@@ -108,7 +111,7 @@ theorem no_crash (sname : String) (count limit total : Int) (infos : List Info) 
       | auto => exact auto_no_crash hv hc
       | global => exact global_no_crash hv hc
       | drained => exact drained_no_crash hc
-      | each => exact (each_cases infos count limit).2.2 hl
+      | each => exact (each_cases infos count limit).2.2
       | fill =>
         obtain ⟨_, _, h3, h4⟩ := fill_cases infos count limit
         simp only
@@ -120,6 +123,40 @@ theorem no_crash (sname : String) (count limit total : Int) (infos : List Info) 
         · rename_i hf; exact absurd hf h4
     · simp only [deploy, hs, if_pos (show count ≤ 0 by omega)]
       exact ⟨fun _ => nofun, nofun⟩
+
+/-- feasible ⇒ a plan is returned, or FILL's "already filled" (nothing to add); never a refusal, a panic
+or non-termination — for every node limit, negative ones included -/
+theorem feasible_implies_plan (sname : String) (s : Strat) (count limit total : Int) (infos : List Info)
+    (hv : Valid infos) (hs : Strat.ofString? sname = some s) (ht : total = satTotal infos)
+    (hc1 : 1 ≤ count) (hc2 : count ≤ maxInt) (hf : feasible s infos count limit = true) :
+    (∃ p, deploy sname count limit infos total = .ok p) ∨
+      deploy sname count limit infos total = .err errAlreadyFilled := by
+  obtain ⟨hp, hd⟩ := no_crash sname count limit total infos hv
+  cases h : deploy sname count limit infos total with
+  | ok p => exact Or.inl ⟨p, rfl⟩
+  | err e =>
+    rcases error_kinds sname s count limit total infos e hs hc1 h with he | he | he
+    · have := refusal_implies_infeasible sname s count limit total infos e hv hs ht hc1 hc2 h (Or.inl he)
+      rw [hf] at this; cases this
+    · have := refusal_implies_infeasible sname s count limit total infos e hv hs ht hc1 hc2 h (Or.inr he)
+      rw [hf] at this; cases this
+    · exact Or.inr (by rw [he])
+  | panic m => exact absurd h (hp m)
+  | diverge => exact absurd h hd
+
+/-- the repaired EACH: every non-positive node limit behaves as limit 0, i.e. "all candidate nodes"
+(before the fix a negative limit panicked at `infos[:limit]`) -/
+theorem each_negative_limit_means_all (infos : List Info) (need limit : Int) (hl : limit ≤ 0) :
+    average infos need limit = average infos need 0 := by
+  unfold average averageOn
+  simp only [if_pos hl, if_pos (Int.le_refl 0)]
+
+/-- EACH with limit −1 on a concrete candidate list plans `count` instances on every node -/
+example :
+    let infos : List Info := [⟨"a", 0, 1, 2, 1⟩, ⟨"b", 0, 1, 3, 0⟩, ⟨"c", 5, 1, 2, 4⟩]
+    ∃ p, deploy "EACH" 2 (-1) infos 7 = .ok p ∧ infos.all (fun i => p.get i.name == 2) = true ∧
+      feasible .each infos 2 (-1) = true ∧ c01 .each infos 2 (-1) p = true := by
+  exact ⟨[("b", 2), ("a", 2), ("c", 2)], by decide, by decide, by decide, by decide⟩
 
 /-- non-vacuity: the hypotheses of `refusal_implies_infeasible` are met by concrete refusals (valid
 candidates with ties and existing instances, `total` = their saturating capacity sum); the theorem's
